@@ -378,7 +378,30 @@ def encoder_rules(cfg, R, lib):
                                 msg = 'base delta code is %r, not _to_extended_delta_code(deltaSeconds)' % holes[1 - i]
                             else:
                                 ok = True
+                                fits = (lin[0][i], Do // 60 - 1, lin[0][1 - i])
     ob(c, f.loc, ok, msg)
+    # R5: the emitted initializer is a constant expression of type int; brace initialisation of the member rejects a
+    # constant outside the member's range (C++11 narrowing), so the largest value the template can spell must fit
+    R.rule('R5', 'every value the deltaCode template can spell fits the C++ member it initialises', floor=1)
+    c5 = 'zonedb.argenerator._to_extended_offset_and_delta:deltaCode-range'
+    R.instance('R5', c5, f.loc)
+    if ok:
+        mty = None
+        for n_, t_, _node in lib.fields('ace_time::extended::ZoneEra'):
+            if n_ == 'deltaCode':
+                mty = int_type(t_)
+        if mty is None:
+            raise AnalysisError('extended::ZoneEra::deltaCode: member or its integer type not found (anchor moved)')
+        shift, max_minute, kbase = fits
+        max_base = D['delta_mod'] - 1            # the low nibble the decoder keeps
+        hi = shift * max_minute + kbase * max_base
+        thi = (1 << (mty[0] - 1)) - 1 if mty[1] else (1 << mty[0]) - 1
+        first_bad = next((mnt for mnt in range(max_minute + 1) if shift * mnt > thi), None)
+        if hi > thi:
+            R.violation('R5', c5, f.loc, 'the template "(minute << 4) + base" spells values up to %d (minute 0..%d, base 0..%d) but extended::ZoneEra::deltaCode is %sint%d_t '
+                        '(max %d): for a standard offset whose minute remainder is %s or more the generated zone_infos.cpp is ill-formed (narrowing in a braced '
+                        'initialiser) - the table cannot be compiled, let alone read back' % (
+                            hi, max_minute, max_base, '' if mty[1] else 'u', mty[0], thi, first_bad))
     # -- basic scope: div_to_zero(x, 900) in the two item generators
     for fn_name, keys in (('ZoneInfosGenerator._generate_era_item', ('basic_era_offset_K', 'basic_era_delta_K')),
                           ('ZonePoliciesGenerator._generate_policy_item', ('basic_rule_delta_K',))):
